@@ -295,7 +295,7 @@ def HookErrAbout (it : TraceItem) (drumEnabled : Bool) (x : WErr) : Prop :=
   (it.ev.type = ev_INS ∧ (x = .insType ∨ x = .insMissing)) ∨
   (it.ev.type = ev_PLATFORM ∧ (x = .platformMissing ∨ x = .platformBad)) ∨
   (it.ev.type = ev_PITCH_ENVELOPE ∧ x = .pitchMissing) ∨
-  (it.ev.type = ev_NOTE ∧ (drumEnabled = false → x = .noteRange)) ∨
+  (it.ev.type = ev_NOTE ∧ (drumEnabled = false → x = .noteRange ∨ x = .drumNoteInLoop)) ∨
   it.ev.type = ev_JUMP ∨ it.ev.type = ev_PAN_ENVELOPE
 
 theorem hookVis_error_event (song : Song) (d : DataInfo) (n : Nat) (c : Conv) (w : WState) (it : TraceItem) (x : WErr)
@@ -312,7 +312,8 @@ theorem hookVis_error_event (song : Song) (d : DataInfo) (n : Nat) (c : Conv) (w
     repeat' split at h
     all_goals first
       | (cases h; done)
-      | (cases h; rfl)
+      | (cases h; exact Or.inl rfl)
+      | (cases h; exact Or.inr rfl)
   rcases ite_eq_cases h with ⟨_, h⟩ | ⟨_, h⟩
   · cases h
   rcases ite_eq_cases h with ⟨_, h⟩ | ⟨_, h⟩
